@@ -50,6 +50,9 @@ type Scenario struct {
 	// Never: the monitor is configured with the largest duration there is (the usual way to say
 	// "no timeout"); the gaps of the events are those of PeriodMs. Nothing is ever closed or pinged.
 	Never bool `json:"never,omitempty"`
+	// AgeDays: the connection (the monitor) is this many days old when the examined events begin: it
+	// was created, nothing ticked for that long, then a message arrived - and from there the events run
+	AgeDays int `json:"ageDays,omitempty"`
 }
 
 type fakeConn struct{ ctx context.Context }
@@ -270,6 +273,13 @@ func Exec(t *testing.T, sc Scenario, r *evid.Run) *evid.Failure {
 			bubble.Wait()
 			scan()
 		}
+		if sc.AgeDays > 0 {
+			time.Sleep(time.Duration(sc.AgeDays) * 24 * time.Hour)
+			bubble.Wait()
+			recvKind = "emptyack" // (not a request: HoldHandler scenarios count those)
+			s.recv()
+			bubble.Wait()
+		}
 		created = time.Since(start)
 		for _, e := range sc.Events {
 			if s.closed() {
@@ -408,6 +418,9 @@ func gen(t *rapid.T) Scenario {
 	}
 	sc.HoldHandler = sc.Target[:3] != "raw" && rapid.IntRange(0, 3).Draw(t, "hold") == 0
 	sc.Never = rapid.IntRange(0, 9).Draw(t, "never") == 0
+	if rapid.IntRange(0, 7).Draw(t, "aged") == 0 {
+		sc.AgeDays = rapid.SampledFrom([]int{1, 24, 25, 49, 50, 99, 100, 1000, 40000}).Draw(t, "age")
+	}
 	p := sc.PeriodMs
 	gaps := []int{1, p / 3, p / 2, p - 1, p + 1, p + p/2, 2*p + 1, 5*p + 3}
 	n := rapid.IntRange(1, 16).Draw(t, "nev")
@@ -484,12 +497,16 @@ func TestCheck(t *testing.T) {
 				b, _ := json.Marshal(sc)
 				key = string(b)
 			}
-			r.Case("monitor", key, func() any { return sc }, "monitor/target="+sc.Target, fmt.Sprintf("monitor/maxRetries=%d", sc.MaxRetries))
+			cls := []string{"monitor/target=" + sc.Target, fmt.Sprintf("monitor/maxRetries=%d", sc.MaxRetries)}
+			if sc.AgeDays > 0 {
+				cls = append(cls, "monitor/connection-aged-1-to-40000-days-first")
+			}
+			r.Case("monitor", key, func() any { return sc }, cls...)
 		}
 		return f
 	})
 	r.Main(evid.Meta{
-		Rule:        "event lists over {message received, pong for the current or a superseded ping, housekeeping tick, housekeeping tick whose ping fails in the write} with virtual gaps around the period (1 ms, p/3, p/2, p-1, p+1, 1.5p, 2p+1, 5p+3; never exactly on it) against the bare inactivity.Monitor / KeepAlive and against datagram and stream connections configured with WithInactivityMonitor / WithKeepAlive (maxRetries 0-4) in a synctest bubble, the scripted peer answering pings on the wire (in a quarter of the connection scenarios the handler never returns and the receive queue has size 0, so that later requests stay in the receiver); oracle: inactivity monitor closes at a tick iff that tick is later than last receipt + period; keep-alive may close only at an inactive tick and only if at least maxRetries pings were attempted (put on the wire unanswered, or failed in the write) since the last received message/pong; a received message never closes; a totally silent peer with ticks every <= period is closed within (maxRetries+2) periods. Non-trivial = traffic or a pong falls between two ticks of one period, or a pong for a superseded ping; distinct by scenario. servers: a tcp / dtls server on an in-memory listener configured once with WithInactivityMonitor or WithKeepAlive (maxRetries 1-3), 2-4 scripted peers that stay silent, answer every ping, or send a request every half period, ticks every half period; oracle per connection: a silent peer is closed (keep-alive: not before maxRetries pings went out on its own wire; inactivity: not before one period), a talking or ping-answering peer is never closed - whatever the other connections of the server do; non-trivial = peers of at least two kinds. " + udpsrv.Rule,
+		Rule:        "event lists over {message received, pong for the current or a superseded ping, housekeeping tick, housekeeping tick whose ping fails in the write} with virtual gaps around the period (1 ms, p/3, p/2, p-1, p+1, 1.5p, 2p+1, 5p+3; never exactly on it) (in an eighth of the cases on a monitor that is 1-40000 days old when they begin) against the bare inactivity.Monitor / KeepAlive and against datagram and stream connections configured with WithInactivityMonitor / WithKeepAlive (maxRetries 0-4) in a synctest bubble, the scripted peer answering pings on the wire (in a quarter of the connection scenarios the handler never returns and the receive queue has size 0, so that later requests stay in the receiver); oracle: inactivity monitor closes at a tick iff that tick is later than last receipt + period; keep-alive may close only at an inactive tick and only if at least maxRetries pings were attempted (put on the wire unanswered, or failed in the write) since the last received message/pong; a received message never closes; a totally silent peer with ticks every <= period is closed within (maxRetries+2) periods. Non-trivial = traffic or a pong falls between two ticks of one period, or a pong for a superseded ping; distinct by scenario. servers: a tcp / dtls server on an in-memory listener configured once with WithInactivityMonitor or WithKeepAlive (maxRetries 1-3), 2-4 scripted peers that stay silent, answer every ping, or send a request every half period, ticks every half period; oracle per connection: a silent peer is closed (keep-alive: not before maxRetries pings went out on its own wire; inactivity: not before one period), a talking or ping-answering peer is never closed - whatever the other connections of the server do; non-trivial = peers of at least two kinds. " + udpsrv.Rule,
 		Assumptions: []string{"the literal off-by-one of 'more than the configured number of pings' is not asserted: closing after maxRetries unanswered pings plus one further inactive tick is accepted (DESIGN.md 3/C18)", "a pong for a superseded ping counts as a received message"},
 		Floor:       500,
 	}, eng, serversEngine(t, r), udpsrv.Engine(r, []string{"keepalive"}, 6, 150))
